@@ -463,6 +463,8 @@ def cases(rng, tier, seed):
         out.append(gen_csd(rng))
     for _ in range(100 * k):
         out.append(gen_crosscov(rng))
+    import c16_r2
+    out += c16_r2.cases(rng, tier)       # round 2: copy / arithmetic on series with generated metadata graphs (incl. un-deep-copyable ones)
     return out
 
 
@@ -1620,7 +1622,7 @@ def unmodelled_operands(tier, seed):
 def oracle(rng, tier, seed, focus, cases=None):
     fails = []
     for c in (cases or []):
-        f = judge_case(c)
+        f = judge_case(c) if (c.meta or {}).get('what') != 'seriescopy' else None
         if f:
             fails.append(f)
     def guarded(name, fn, default):
@@ -1633,7 +1635,7 @@ def oracle(rng, tier, seed, focus, cases=None):
             where = next((f for f in reversed(tb) if '/nitime/' in f.filename), tb[-1])
             fails.append(Failure('experiment/%s/raises-%s' % (name, err_kind(e)),
                                  'the %s experiment died inside the library: %r at %s:%s' % (name, e, where.filename.split('/')[-1], where.name),
-                                 {'what': 'copies' if name != 'sweep' else 'sweep'}))
+                                 {'what': 'copies' if name != 'sweep' else 'sweep'} if not name.startswith('r2-') else {'what': 'r2', 'part': {'r2-series': 'series', 'r2-entry-failures': 'entry-failures', 'r2-entry-aliases': 'entry-aliases', 'r2-analyzers': 'analyzers'}[name]}))
             return default
     f2, stats = guarded('sweep', lambda: sweep(tier, seed), ([], {}))
     fails += f2
@@ -1643,6 +1645,10 @@ def oracle(rng, tier, seed, focus, cases=None):
     f3, n3 = guarded('operands', lambda: unmodelled_operands(tier, seed), ([], 0))
     fails += f3
     stats['unmodelled_operand_calls'] = n3
+    import c16_r2
+    f4, s4 = c16_r2.oracle(tier, seed, cases, guarded)      # round 2: failure paths (L7), aliasing (L8)
+    fails += f4
+    stats.update(s4)
     for f in fails:
         f.replay = dict(f.replay, key=f.key)
     stats.update(judged=len(cases or []), failed=len(fails), distinct_keys=len({f.key for f in fails}))
@@ -1655,7 +1661,14 @@ def replay(d):
     if str(d.get('key', '')).startswith('experiment/'):
         fs, _ = oracle(None, 'quick', 0, [], [])
         return next((f for f in fs if f.key == d['key']), None)
-    if d.get('what') == 'sweep':
+    if d.get('what') == 'r2':
+        import c16_r2
+        fs = c16_r2.replay(d)
+    elif d.get('what') == 'seriescopy':
+        import c16_r2
+        f = c16_r2.rejudge_seriescopy(d)
+        fs = [f] if f else []
+    elif d.get('what') == 'sweep':
         # the recorded entry point in the recorded family / size variant; when that does not reproduce, the whole table of
         # that family (a history failure may need the other entries to have run)
         only = {'name': d.get('name'), 'fam': d.get('fam'), 'variant': d.get('variant')} if d.get('name') and d.get('fam') else None
